@@ -385,6 +385,17 @@ void check_options (void)
 	if (ctrl.C_plus_plus && ctrl.bison_bridge_lval)
 		flexerror (_("bison bridge not supported for the C++ scanner."));
 
+	/* The generated main() calls yylex() with no arguments (or with the
+	 * scanner alone): it cannot supply a C++ lexer object or the
+	 * semantic value and location that a bison-bridge yylex() takes.
+	 */
+	if (ctrl.do_main == trit_true && ctrl.C_plus_plus)
+		flexerror (_("%option main not supported for the C++ scanner."));
+
+	if (ctrl.do_main == trit_true
+	    && (ctrl.bison_bridge_lval || ctrl.bison_bridge_lloc))
+		flexerror (_("%option main and the bison bridge are incompatible"));
+
 
 	if (ctrl.useecs) {		/* Set up doubly-linked equivalence classes. */
 
